@@ -33,7 +33,8 @@ LEVEL_NOTE = 'Trusted: bvf/refmodel.py Layouter scope tables (global / per file 
 BASES = ['aa', 'lp', 'tmp']
 HEADS = ['start', 'main', 'sub1', 'sub2', 'fin', 'isr', 'tbl', 'vec', 'top', 'mid']
 FAULTS = ['dup-local', 'dup-file', 'dup-global', 'dup-const', 'cross-region-ref', 'cross-file-ref', 'undefined-global',
-          'orphan-local', 'ref-after-org', 'register-label', 'keyword-label', 'local-keyword-label']
+          'orphan-local', 'ref-after-org', 'register-label', 'keyword-label', 'local-keyword-label',
+          'register-named-predefined-used', 'local-across-renamed-zone']
 
 
 def probe(name, off=0):
@@ -110,7 +111,26 @@ def _cases(draw, tier):
         items.insert(0, {'t': 'const', 'name': 'kval', 'e': ['num', draw(st.integers(0, 500)), 'dec']})
         items.append(probe('kval'))
     fault = draw(st.sampled_from([None, None, None] + FAULTS))
-    if fault:
+    if fault == 'register-named-predefined-used':
+        # the ISA predefines a constant or data block under a register's name: using it as a number is still rejected
+        reg = draw(st.sampled_from(['a', 'x', 'hl']))
+        pre = cfg.setdefault('predefined', {})
+        if draw(st.booleans()):
+            pre.setdefault('constants', []).append({'name': reg, 'value': draw(st.integers(0, 300))})
+        else:
+            pre.setdefault('data', []).append({'name': reg, 'address': 0x7000, 'value': 1, 'size': 2})
+        items = list(items)
+        items.insert(draw(st.integers(0, len(items))), probe(reg, draw(st.sampled_from([0, 1]))))
+    elif fault == 'local-across-renamed-zone':
+        # naming the zone that is already selected is still a zone directive: it ends the local-label region
+        cfg.setdefault('predefined', {}).setdefault('memory_zones', []).append({'name': 'ZQ', 'start': 0x4000, 'end': 0x4FFF})
+        how = draw(st.sampled_from(['memzone', 'org']))
+        again = {'t': 'memzone', 'zone': 'ZQ'} if how == 'memzone' else {'t': 'org', 'e': ['num', 0x100, 'hex$'], 'zone': 'ZQ'}
+        tail = [{'t': 'memzone', 'zone': 'ZQ'}, {'t': 'label', 'name': 'zq_head'}, {'t': 'label', 'name': '.zloc'},
+                {'t': 'data', 'd': '.byte', 'vals': [['num', 1, 'dec']]}, again]
+        tail += draw(st.sampled_from([[probe('.zloc')], [{'t': 'label', 'name': '.orphan2'}, {'t': 'data', 'd': '.byte', 'vals': [['num', 2, 'dec']]}]]))
+        items = list(items) + tail
+    elif fault:
         items = inject(draw, items, fault)
         if items is None:
             return {'skip': 'fault not applicable to this program'}
